@@ -100,6 +100,24 @@ def brace_tokens(source, node) -> TokenRange:
     return first_token, end_token
 
 
+def with_parentheses(source, token_range: TokenRange, braces: TokenRange) -> TokenRange:
+    """The token range of an element together with the parentheses around it,
+    like `(1)` or a string which is wrapped over several lines."""
+    atok = source.asttokens()
+    first_token, last_token = token_range
+    while True:
+        prev_token = atok.prev_token(first_token)
+        next_token = atok.next_token(last_token)
+        if (
+            prev_token.string != "("
+            or next_token.string != ")"
+            or prev_token.index <= braces[0].index
+            or next_token.index >= braces[1].index
+        ):
+            return first_token, last_token
+        first_token, last_token = prev_token, next_token
+
+
 def generic_sequence_update(
     source: SourceFile,
     parent: Union[ast.List, ast.Tuple, ast.Dict, ast.Call],
@@ -224,14 +242,16 @@ def apply_all(all_changes: List[Change], recorder: ChangeRecorder):
                 if isinstance(change, ListInsert)
             }
 
+            list_braces = brace_tokens(source, parent)
+
             def list_token_range(entry):
                 r = list(source.asttokens().get_tokens(entry))
-                return r[0], r[-1]
+                return with_parentheses(source, (r[0], r[-1]), list_braces)
 
             generic_sequence_update(
                 source,
                 parent,
-                brace_tokens(source, parent),
+                list_braces,
                 [None if e in to_delete else list_token_range(e) for e in parent.elts],
                 to_insert,
                 recorder,
@@ -243,16 +263,18 @@ def apply_all(all_changes: List[Change], recorder: ChangeRecorder):
             }
             atok = source.asttokens()
 
-            def arg_token_range(node):
-                if isinstance(node.parent, ast.keyword):
-                    node = node.parent
-                r = list(atok.get_tokens(node))
-                return r[0], r[-1]
-
             braces_left = atok.next_token(list(atok.get_tokens(parent.func))[-1])
             assert braces_left.string == "("
             braces_right = list(atok.get_tokens(parent))[-1]
             assert braces_right.string == ")"
+
+            def arg_token_range(node):
+                if isinstance(node.parent, ast.keyword):
+                    node = node.parent
+                r = list(atok.get_tokens(node))
+                return with_parentheses(
+                    source, (r[0], r[-1]), (braces_left, braces_right)
+                )
 
             to_insert = DefaultDict(list)
 
@@ -293,16 +315,24 @@ def apply_all(all_changes: List[Change], recorder: ChangeRecorder):
                 if isinstance(change, DictInsert)
             }
 
+            dict_braces = brace_tokens(source, parent)
+
             def dict_token_range(key, value):
+                key_tokens = list(source.asttokens().get_tokens(key))
+                value_tokens = list(source.asttokens().get_tokens(value))
                 return (
-                    list(source.asttokens().get_tokens(key))[0],
-                    list(source.asttokens().get_tokens(value))[-1],
+                    with_parentheses(
+                        source, (key_tokens[0], key_tokens[-1]), dict_braces
+                    )[0],
+                    with_parentheses(
+                        source, (value_tokens[0], value_tokens[-1]), dict_braces
+                    )[1],
                 )
 
             generic_sequence_update(
                 source,
                 parent,
-                brace_tokens(source, parent),
+                dict_braces,
                 [
                     None if value in to_delete else dict_token_range(key, value)
                     for key, value in zip(parent.keys, parent.values)
